@@ -107,10 +107,10 @@ def run(ctx):
         # model answers (probing and trie kinds)
         ml = m.session_lines()
         nset = len(ml)
-        for k in ("P", "T"):
+        for k in ("P", "T", "R"):
             ml += ["C %s %s" % (k, " ".join(t)) for _, _, t in cases]
         mout = vlib.run_lines(model_exe, ml)
-        mres = {"P": mout[nset:nset + len(cases)], "T": mout[nset + len(cases):nset + 2 * len(cases)]}
+        mres = {"P": mout[nset:nset + len(cases)], "T": mout[nset + len(cases):nset + 2 * len(cases)], "R": mout[nset + 2 * len(cases):nset + 3 * len(cases)]}
         for typ in ["probing", "rest", "trie", "atrie"] + (["qtrie"] if not ctx.quick else []):
             cmd = [lmq, sess.arpa, typ, sess.vocab, "tmp=" + sess.dir + "/"]
             rc, out, err = vlib.sh(cmd, input=("\n".join(lines_impl) + "\n").encode(), timeout=300)
@@ -141,8 +141,8 @@ def run(ctx):
                         problems.append(("spec:total:" + typ + (":bos" if bos else ":fragment"),
                                          "derivation total %s/64, left-to-right total %s/64" % (got[0] if got else None, total), rq, True))
                 # correspondence with the extracted model
-                if typ in ("probing", "trie", "atrie"):
-                    mm = parse_chart(mres[lc.KIND[typ]][ci], False)
+                if typ in ("probing", "trie", "atrie", "rest"):
+                    mm = parse_chart(mres[lc.CHART_KIND[typ]][ci], False)
                     if mm != got:
                         problems.append(("correspondence:chart:" + typ, "implementation %r, model %r" % (got, mm), rq, False))
             if len(problems) > 20:
@@ -159,10 +159,10 @@ def run(ctx):
         plines = ["P " + fmtp(c) for c in pcases]
         ml2 = m.session_lines()
         n2 = len(ml2)
-        for k in ("P", "T"):
+        for k in ("P", "T", "R"):
             ml2 += ["P %s %s" % (k, fmtp(c)) for c in pcases]
         mo2 = vlib.run_lines(model_exe, ml2)
-        mres2 = {"P": mo2[n2:n2 + len(pcases)], "T": mo2[n2 + len(pcases):]}
+        mres2 = {"P": mo2[n2:n2 + len(pcases)], "T": mo2[n2 + len(pcases):n2 + 2 * len(pcases)], "R": mo2[n2 + 2 * len(pcases):]}
         for typ in ["probing", "rest", "trie"]:
             rc, out, err = vlib.sh([lmq, sess.arpa, typ, sess.vocab, "tmp=" + sess.dir + "/"], input=("\n".join(plines) + "\n").encode(), timeout=300)
             stats["impl_runs"] += 1
@@ -184,12 +184,12 @@ def run(ctx):
                 rq = dict(base, type=typ, before=c[0], between=c[1], after=c[2])
                 if got != full - pb - pm - pa:
                     problems.append(("spec:reveal-adjustment:" + typ, "revealed adjustments sum to %s/64, whole minus parts is %s/64" % (got, full - pb - pm - pa), rq, True))
-                if typ in ("probing", "trie"):
-                    mf = mres2[lc.KIND[typ]][ci].split()
+                if typ in ("probing", "trie", "rest"):
+                    mf = mres2[lc.CHART_KIND[typ]][ci].split()
                     mv = [(-int(v[1:], 16) if v.startswith("-") else int(v, 16)) for v in mf[:5]]
                     same = mv == vals and mf[5:7] == f[5:7] and lc.parse_state_model(mf[7] if len(mf) > 7 else "/") == lc.parse_state_impl(f[7] if len(f) > 7 else "/")
                     if not same:
-                        problems.append(("correspondence:partial:" + typ, "implementation %s, model %s" % (line, mres2[lc.KIND[typ]][ci]), rq, False))
+                        problems.append(("correspondence:partial:" + typ, "implementation %s, model %s" % (line, mres2[lc.CHART_KIND[typ]][ci]), rq, False))
         # ---- Subsume: merging two adjacent fragments accumulates whole minus parts and yields the whole's chart state
         ucases = []
         for s in sents:
@@ -200,10 +200,10 @@ def run(ctx):
         ulines = ["SUB " + fmtu(c) for c in ucases] + ["C ( " + " ".join("%x" % w for w in (c[0] + c[1])) + " )" for c in ucases]
         ml3 = m.session_lines()
         n3 = len(ml3)
-        for k in ("P", "T"):
+        for k in ("P", "T", "R"):
             ml3 += ["SUB %s %s" % (k, fmtu(c)) for c in ucases]
         mo3 = vlib.run_lines(model_exe, ml3)
-        mres3 = {"P": mo3[n3:n3 + len(ucases)], "T": mo3[n3 + len(ucases):]}
+        mres3 = {"P": mo3[n3:n3 + len(ucases)], "T": mo3[n3 + len(ucases):n3 + 2 * len(ucases)], "R": mo3[n3 + 2 * len(ucases):]}
         for typ in ["probing", "rest", "trie"]:
             rc, out, err = vlib.sh([lmq, sess.arpa, typ, sess.vocab, "tmp=" + sess.dir + "/"], input=("\n".join(ulines) + "\n").encode(), timeout=300)
             stats["impl_runs"] += 1
@@ -229,12 +229,12 @@ def run(ctx):
                 # merged chart state = chart state of the whole fragment (left length/full, right state)
                 if f[4:] != whole[1:]:
                     problems.append(("spec:subsume-state:" + typ, "merged state %s, state of the whole fragment %s" % (" ".join(f[4:]), " ".join(whole[1:])), rq, True))
-                if typ in ("probing", "trie"):
-                    mf = mres3[lc.KIND[typ]][ci].split()
+                if typ in ("probing", "trie", "rest"):
+                    mf = mres3[lc.CHART_KIND[typ]][ci].split()
                     mv = [(-int(v[1:], 16) if v.startswith("-") else int(v, 16)) for v in mf[:4]]
                     same = mv == vals and mf[4:6] == f[4:6] and lc.parse_state_model(mf[6] if len(mf) > 6 else "/") == lc.parse_state_impl(f[6] if len(f) > 6 else "/")
                     if not same:
-                        problems.append(("correspondence:subsume:" + typ, "implementation %s, model %s" % (body[ci], mres3[lc.KIND[typ]][ci]), rq, False))
+                        problems.append(("correspondence:subsume:" + typ, "implementation %s, model %s" % (body[ci], mres3[lc.CHART_KIND[typ]][ci]), rq, False))
         if mi < 2:
             ctx.sample({"order": m.order, "vocab": len(m.vocab), "ngrams": len(m.grams), "suffix_closed": m.suffix_closed(),
                         "tree": " ".join(cases[0][2]) if cases else None})
